@@ -32,11 +32,13 @@ def subdir_of(t_ms, sc):
 
 
 def rf_record(n, d, fc, sc, name_ms, sub, first, last, cont, overlap=False, tag=""):
-    sf = sub_fields(sub) or dict(Y=1970, M=1, D=1, h=0, mi=0, s=0, days=0, sod=0, sub_sec=0)
+    sf = sub_fields(sub)
+    subok = sf is not None
+    sf = sf or dict(Y=1970, M=1, D=1, h=0, mi=0, s=0, days=0, sod=0, sub_sec=0)
     ss = sf.pop("sub_sec")
     ev = dict(ev="rf", n=limbs(n), d=limbs(d), fc=limbs(fc), sc=limbs(sc), name=limbs(name_ms), q=limbs(name_ms // fc),
               sub=limbs(ss), qs=limbs(ss // sc), first=limbs(first), last=limbs(last), cont=bool(cont), overlap=bool(overlap),
-              raised=False, raw=dict(n=n, d=d, fc=fc, sc=sc, name_ms=name_ms, sub=sub, first=first, last=last, tag=tag))
+              raised=False, subok=subok, raw=dict(n=n, d=d, fc=fc, sc=sc, name_ms=name_ms, sub=sub, first=first, last=last, tag=tag))
     ev.update(sf)
     return ev
 
@@ -44,8 +46,8 @@ def rf_record(n, d, fc, sc, name_ms, sub, first, last, cont, overlap=False, tag=
 def scan_channel(chdir):
     """[(sub, name_ms, first, last, dlen)] for every rf@ file, via raw h5py"""
     out = []
-    for sub in sorted(os.listdir(chdir)):
-        sp = os.path.join(chdir, sub)
+    for sub in [""] + sorted(os.listdir(chdir)):       # "": a data file directly in the channel directory
+        sp = os.path.join(chdir, sub) if sub else chdir
         if not os.path.isdir(sp):
             continue
         for f in sorted(os.listdir(sp)):
